@@ -103,6 +103,7 @@ func c16Check(c c16Case) *kit.Verdict {
 		key       string
 		delivered bool
 		sinceLast time.Duration
+		after     time.Duration // measured after the injection call returned
 	}
 	var mu sync.Mutex
 	var lates []*late
@@ -144,9 +145,10 @@ func c16Check(c c16Case) *kit.Verdict {
 			w.After(time.Duration(c.RxErrMs)*time.Millisecond, tick)
 		}
 		w.After(time.Duration(float64(d)*c.LateFrac), func() {
+			at := time.Since(lastAt)
 			ok := s.Inject(fr)
 			mu.Lock()
-			l.delivered, l.sinceLast = ok, time.Since(lastAt)
+			l.delivered, l.sinceLast, l.after = ok, at, time.Since(lastAt)
 			mu.Unlock()
 		})
 		return nil
@@ -232,10 +234,14 @@ func c16Check(c c16Case) *kit.Verdict {
 		return v.Failf("harness: %d late replies scheduled for %d chunks", len(lates), nchunks)
 	}
 	for _, l := range lates {
+		if !l.delivered && l.after >= d {
+			// the harness's own timer fired late (busy machine): the reply arrived after the exit delay, a closed socket is right
+			return &kit.Verdict{Inconclusive: true}
+		}
 		if !l.delivered {
 			return v.Failf("%s\nchunk %d: a reply arriving %v after the chunk's last probe (exit delay %v) found the socket closed or its filter refusing it", line, l.sock+1, l.sinceLast, d)
 		}
-		if got[l.key] < 1 && lateness > d/8 {
+		if got[l.key] < 1 && (lateness > d/8 || l.sinceLast > d*3/4) {
 			// the reply had at least half the delay to be processed, but the machine stalled for a good part of it
 			return &kit.Verdict{Inconclusive: true}
 		}
